@@ -821,9 +821,19 @@ impl<'r, R: Rng> ProgGen<'r, R> {
         let n = self.rng.gen_range(1..=self.cfg.max_fields);
         let mut names: Vec<&str> = FIELD_NAMES.to_vec();
         names.shuffle(self.rng);
+        let mut earlier: Vec<Ty> = Vec::new();
         (0..n)
             .map(|i| {
                 let mut ty = self.gen_ty(cx, 0, false);
+                // now and then the type of an earlier member of the same list again, as it is or
+                // boxed (one type id, two different field renderings)
+                if !earlier.is_empty() && self.chance(0.1) {
+                    let prev = earlier.choose(self.rng).unwrap().clone();
+                    if !matches!(prev, Ty::Phantom(_)) {
+                        ty = if self.chance(0.6) && !matches!(prev, Ty::Box(_)) { Ty::Box(prev.b()) } else { prev };
+                    }
+                }
+                earlier.push(ty.clone());
                 let mut compact = false;
                 if self.cfg.allow_compact && self.chance(0.08) {
                     let uints: std::vec::Vec<usize> = (0..cx.params.len()).filter(|&i| cx.params[i].uint).collect();
